@@ -105,9 +105,24 @@ func (s *Session) Symlink(target, p string) error {
 
 // Hold opens p read-only and keeps the descriptor.
 func (s *Session) Hold(p string) (int, error) {
-	fd, err := unix.Open(p, unix.O_RDONLY|unix.O_CLOEXEC, 0)
+	fd, err := unix.Open(p, unix.O_RDWR|unix.O_APPEND|unix.O_CLOEXEC, 0)
+	if err != nil { // a directory
+		fd, err = unix.Open(p, unix.O_RDONLY|unix.O_CLOEXEC, 0)
+	}
 	s.Step("hold " + p)
 	return fd, err
+}
+
+// TouchHeld changes the file through a held descriptor (write or fchmod): works whether or not the file
+// still has a name.
+func (s *Session) TouchHeld(fd int, write bool) {
+	if write {
+		unix.Write(fd, []byte("h"))
+		s.Step(fmt.Sprintf("write through fd %d", fd))
+	} else {
+		unix.Fchmod(fd, 0o640)
+		s.Step(fmt.Sprintf("fchmod fd %d", fd))
+	}
 }
 
 func (s *Session) Release(fd int) {
